@@ -104,6 +104,10 @@ func toCoreTestSuite(xmlTestSuite *jUnitXMLTestSuite) core.TestSuite {
 		appendResult(test, &result)
 		testSuite.TestCases = append(testSuite.TestCases, result)
 	}
+	// Some tools nest test suites inside each other; report their test cases too.
+	for _, nested := range xmlTestSuite.TestSuites {
+		testSuite.TestCases = append(testSuite.TestCases, toCoreTestSuite(nested).TestCases...)
+	}
 	return testSuite
 }
 
@@ -292,10 +296,11 @@ type jUnitXMLTestSuite struct {
 	timed     `xml:"time,attr,omitempty"`
 	Timestamp string `xml:"timestamp,attr,omitempty"`
 
-	Properties jUnitXMLProperties `xml:"properties,omitempty"`
-	TestCases  []jUnitXMLTest     `xml:"testcase"`
-	Stdout     string             `xml:"system-out,omitempty"`
-	Stderr     string             `xml:"system-err,omitempty"`
+	Properties jUnitXMLProperties   `xml:"properties,omitempty"`
+	TestCases  []jUnitXMLTest       `xml:"testcase"`
+	TestSuites []*jUnitXMLTestSuite `xml:"testsuite,omitempty"`
+	Stdout     string               `xml:"system-out,omitempty"`
+	Stderr     string               `xml:"system-err,omitempty"`
 
 	XMLName xml.Name `xml:"testsuite"`
 }
